@@ -1,8 +1,7 @@
 #!/bin/bash
-# MANIFEST.setup_cmd: offline build of the harness in the profiles the quick tier needs.
+# MANIFEST.setup_cmd: offline build of the harness in every variant the quick tier needs.
 set -e
 cd "$(dirname "${BASH_SOURCE[0]}")"
 export CARGO_NET_OFFLINE=true
-./check build release
-./check build chk
+for v in release chk nopf sched; do ./check build "$v"; done
 echo "setup ok"
